@@ -62,7 +62,7 @@ def _start_thread_runs(ctx, strength):
 
     def work(n):
         res[n] = ctx.run_impl("c16_threads.py", {"families": fams, "reps": 2 if strength == "quick" else 3},
-                              timeout=3000, threads=n)
+                              timeout=3000 if strength == "quick" else 9000, threads=n)
 
     th = [threading.Thread(target=work, args=(n,)) for n in counts]
     for t in th:
